@@ -1,6 +1,7 @@
 package redisemu
 
 import (
+	"math"
 	"strings"
 	"time"
 )
@@ -85,6 +86,12 @@ func fnExpire(ctx *cmdContext, args map[string]any) (output respValue, err error
 	_, gt := args["condition.gt"]
 	_, lt := args["condition.lt"]
 
+	if ttl > math.MaxInt64/int64(time.Second) || ttl < math.MinInt64/int64(time.Second) {
+		// the lifetime does not fit into the clock's range: refused, the key stays as it is
+		output.data = respErrorString("ERR invalid expire time in 'expire' command")
+		return
+	}
+
 	expiration := time.Now().Add(time.Duration(ttl) * time.Second)
 
 	output = ctx.dsc.expire(keyName, expiration, nx, xx, gt, lt)
@@ -123,6 +130,12 @@ func fnPExpire(ctx *cmdContext, args map[string]any) (output respValue, err erro
 	_, xx := args["condition.xx"]
 	_, gt := args["condition.gt"]
 	_, lt := args["condition.lt"]
+
+	if ttl > math.MaxInt64/int64(time.Millisecond) || ttl < math.MinInt64/int64(time.Millisecond) {
+		// the lifetime does not fit into the clock's range: refused, the key stays as it is
+		output.data = respErrorString("ERR invalid expire time in 'pexpire' command")
+		return
+	}
 
 	expiration := time.Now().Add(time.Duration(ttl) * time.Millisecond)
 
